@@ -396,6 +396,10 @@ func genC04(rng *rand.Rand, n int, tier string, emit func(*Sx)) {
 				ops = append(ops, T("setnil", I(inj), I(k)))
 			}
 		}
+		if !nilCase && rng.Intn(8) == 0 {
+			// nothing registered yet: interface{} has no implementor; then one arrives through Set; the next look-up finds it
+			ops = append(ops, T("value", I(0), I(8)), T("set", I(0), I(5), I(4), I(id())), T("value", I(0), I(8)))
+		}
 		for k := 3 + rng.Intn(10); k > 0; k-- {
 			inj := rng.Intn(ninj)
 			switch r := rng.Intn(20); {
